@@ -208,7 +208,8 @@ def make_distance_matrix_from_adjacency_matrix(AG):
         _, components_by_vertex = connected_components(AG, directed=False)
         components, component_sizes = np.unique(components_by_vertex, return_counts=True)
         largest_component = components[np.argmax(component_sizes)]
-        DG = DG[components_by_vertex == largest_component]
+        in_largest_component = components_by_vertex == largest_component
+        DG = DG[in_largest_component][:, in_largest_component]
 
     # Cast distance matrix to optimal integer type.
     DG = cast_distance_matrix_to_optimal_int_type(DG)
